@@ -87,6 +87,25 @@ func (m *model) register(name, eps string) (uint32, bool) {
 	return m.lastID, true
 }
 
+// registerAs is register with the identifier the implementation chose: the
+// statement asks for identifiers that are strictly increasing and never
+// reused, not for consecutive ones (a refused registration may consume one).
+// idOK reports whether the identifier is above every identifier handed out
+// before; the model then continues with it.
+func (m *model) registerAs(name, eps string, id uint32) (accepted, idOK bool) {
+	if name == "" || m.nameUsed(name) {
+		return false, true
+	}
+	if id <= m.lastID {
+		m.lastID++
+		m.staging[m.lastID] = entry{name, eps}
+		return true, false
+	}
+	m.lastID = id
+	m.staging[id] = entry{name, eps}
+	return true, true
+}
+
 func (m *model) ready(id uint32) bool {
 	e, ok := m.staging[id]
 	if !ok {
@@ -325,11 +344,12 @@ func apply(p directory.ServiceDirectoryProxy, m *model, o op, hist string) {
 	switch o.kind {
 	case "register":
 		id, err := p.RegisterService(info(o.name, o.id, o.eps))
-		mid, ok := m.register(o.name, o.eps)
+		last := m.lastID
+		ok, idOK := m.registerAs(o.name, o.eps, id)
 		if ok != (err == nil) {
 			fail("answer-differs", "implementation error=%v, model accepts=%v", err, ok)
-		} else if ok && id != mid {
-			fail("identifier-differs", "implementation assigned %d, model %d", id, mid)
+		} else if ok && !idOK {
+			fail("identifier-differs", "implementation assigned %d, which is not above the identifiers handed out before (the last one was %d): identifiers are strictly increasing and never reused", id, last)
 		}
 	case "ready":
 		err := p.ServiceReady(o.id)
@@ -441,8 +461,12 @@ var dirModel = porcupine.Model{
 		i, o := input.(regIn), output.(regOut)
 		switch i.kind {
 		case "register":
-			id, ok := m.register(i.name, "tcp://x")
-			return ok == o.ok && (!ok || id == o.id), m
+			if !o.ok {
+				_, ok := m.register(i.name, "tcp://x")
+				return !ok, m
+			}
+			ok, idOK := m.registerAs(i.name, "tcp://x", o.id)
+			return ok && idOK, m
 		case "ready":
 			return m.ready(i.id) == o.ok, m
 		case "unregister":
